@@ -76,7 +76,7 @@ func (t *Tracker) fail(key, format string, a ...interface{}) {
 
 // HeadOf reads the tracked head through a view: (height, node, ok). node is nil if the index
 // entry does not name a header of the model.
-func (t *Tracker) HeadOf(v e1.View) (uint64, *Node, bool) {
+func (t *Tracker) HeadOf(v sview) (uint64, *Node, bool) {
 	raw := v.Get(chain.HeaderSync, keyCur(t.ChainID))
 	if len(raw) != 8 {
 		return 0, nil, false
@@ -90,7 +90,7 @@ func (t *Tracker) HeadOf(v e1.View) (uint64, *Node, bool) {
 }
 
 // CanonicalAt returns the model node the canonical index names at a height (nil if none).
-func (t *Tracker) CanonicalAt(v e1.View, height uint64) *Node {
+func (t *Tracker) CanonicalAt(v sview, height uint64) *Node {
 	hh := v.Get(chain.HeaderSync, keyMain(t.ChainID, height))
 	if len(hh) != 32 {
 		return nil
@@ -119,7 +119,7 @@ func (t *Tracker) classify(raw string) (kind string, arg []byte) {
 // OnTx checks one observed transition of a syncGenesisHeader / syncBlockHeader transaction.
 // submitted = the model nodes whose headers the transaction carried (in order); genesis = the
 // transaction is the trust-root installation. now = the clock the contract saw.
-func (t *Tracker) OnTx(tr *e1.TxTrace, submitted []*Node, genesis bool, now int64) {
+func (t *Tracker) OnTx(tr *e1.TxTrace, pre, post sview, submitted []*Node, genesis bool, now int64) {
 	r := t.R
 	inTx := map[int]bool{}
 	for _, n := range submitted {
@@ -127,18 +127,18 @@ func (t *Tracker) OnTx(tr *e1.TxTrace, submitted []*Node, genesis bool, now int6
 	}
 	// completeness probe (not asserted): an all-honest transaction in topological order
 	if !genesis {
-		pre := map[int]bool{}
+		earlier := map[int]bool{}
 		acceptable := true
 		fresh := 0
 		for _, n := range submitted {
-			if t.Stored(n) || pre[n.Idx] {
+			if t.Stored(n) || earlier[n.Idx] {
 				continue
 			}
 			fresh++
-			if byz(n.Kind) || n.Parent == nil || !(t.Stored(n.Parent) || pre[n.Parent.Idx]) || int64(n.H.Time) > now+15 {
+			if byz(n.Kind) || n.Parent == nil || !(t.Stored(n.Parent) || earlier[n.Parent.Idx]) || int64(n.H.Time) > now+15 {
 				acceptable = false
 			}
-			pre[n.Idx] = true
+			earlier[n.Idx] = true
 		}
 		if acceptable && fresh > 0 {
 			t.topoTx++
@@ -149,7 +149,7 @@ func (t *Tracker) OnTx(tr *e1.TxTrace, submitted []*Node, genesis bool, now int6
 			}
 		}
 	}
-	preHeight, preHead, preOK := t.HeadOf(tr.Pre)
+	preHeight, preHead, preOK := t.HeadOf(pre)
 	// 1. writes are confined to this chain's light-client records, and name model headers
 	for _, k := range sortedKeys(tr.Writes) {
 		kind, arg := t.classify(k)
@@ -173,7 +173,7 @@ func (t *Tracker) OnTx(tr *e1.TxTrace, submitted []*Node, genesis bool, now int6
 	// 2. which model headers are stored now
 	fresh := 0
 	for _, n := range t.C.Nodes {
-		v := tr.Post.Get(chain.HeaderSync, keyHeader(t.ChainID, n.Hash[:]))
+		v := post.Get(chain.HeaderSync, keyHeader(t.ChainID, n.Hash[:]))
 		old, was := t.stored[n.Idx]
 		if v == nil {
 			if was {
@@ -214,10 +214,13 @@ func (t *Tracker) OnTx(tr *e1.TxTrace, submitted []*Node, genesis bool, now int6
 			r.Probe("resubmission_of_known_headers_noop")
 		}
 	}
-	t.CheckView(tr.Post, fmt.Sprintf("after tx %d", tr.Index))
+	t.CheckView(post, fmt.Sprintf("after tx %d", tr.Index))
 	// reorg classification (evidence only)
-	postHeight, postHead, postOK := t.HeadOf(tr.Post)
+	postHeight, postHead, postOK := t.HeadOf(post)
 	if preOK && postOK && preHead != nil && postHead != nil && preHead != postHead {
+		if a, b := t.td[preHead.Idx], t.td[postHead.Idx]; a != nil && b != nil && a.Cmp(b) == 0 {
+			r.Probe("head_switched_between_equal_total_difficulties") // tie-break behaviour: evidence only
+		}
 		switch {
 		case IsAncestor(preHead, postHead):
 			r.Probe("head_extended")
@@ -231,7 +234,7 @@ func (t *Tracker) OnTx(tr *e1.TxTrace, submitted []*Node, genesis bool, now int6
 			t.Reorgs["shorter"]++
 			r.Fault("reorg_to_shorter_heavier_fork")
 			r.Probe("reorg_to_shorter_heavier_fork")
-			if tr.Post.Get(chain.HeaderSync, keyMain(t.ChainID, preHeight)) != nil {
+			if post.Get(chain.HeaderSync, keyMain(t.ChainID, preHeight)) != nil {
 				r.Probe("stale_index_entries_above_head")
 			}
 		}
@@ -266,7 +269,7 @@ func sortedKeys(m map[string][]byte) []string {
 }
 
 // CheckView asserts the state invariants of C27 on a view.
-func (t *Tracker) CheckView(v e1.View, when string) {
+func (t *Tracker) CheckView(v sview, when string) {
 	if len(t.stored) == 0 {
 		return
 	}
@@ -331,7 +334,7 @@ func (t *Tracker) CheckView(v e1.View, when string) {
 			t.fail("canonical-entry-not-a-stored-header", "%s: canonical entry at height %d names %x which is not a stored header", when, h, hh[:6])
 			return
 		}
-		if !n.H.Number.IsUint64() || n.H.Number.Uint64() != h {
+		if n.H.Number.IsUint64() && n.H.Number.Uint64() != h { // (a wider number is reported once, as a height violation)
 			t.fail("canonical-height-mismatch", "%s: canonical entry at height %d names header #%d whose number is %v", when, h, n.Idx, n.H.Number)
 		}
 		if h == rootNum {
@@ -355,7 +358,7 @@ func (t *Tracker) CheckView(v e1.View, when string) {
 }
 
 // Digest renders the light client's state (for traces and state-distinctness).
-func (t *Tracker) Digest(v e1.View) string {
+func (t *Tracker) Digest(v sview) string {
 	cur, head, ok := t.HeadOf(v)
 	hi := -1
 	if head != nil {
